@@ -475,6 +475,22 @@ func (s *srvConn) quiesce() string {
 	}
 }
 
+// noteSettings: the peer's own decoder may use what it announces in
+// SETTINGS_HEADER_TABLE_SIZE (well-formed SETTINGS frames only).
+func (s *srvConn) noteSettings(b []byte) {
+	frames, _ := parseFrames(b)
+	for _, fr := range frames {
+		if fr.typ == 4 && fr.flags&1 == 0 && fr.stream == 0 && len(fr.payload)%6 == 0 {
+			for i := 0; i+6 <= len(fr.payload); i += 6 {
+				if int(fr.payload[i])<<8|int(fr.payload[i+1]) == 1 {
+					v := uint32(fr.payload[i+2])<<24 | uint32(fr.payload[i+3])<<16 | uint32(fr.payload[i+4])<<8 | uint32(fr.payload[i+5])
+					s.dec.SetAllowedMaxDynamicTableSize(v)
+				}
+			}
+		}
+	}
+}
+
 func (s *srvConn) gauges() string {
 	return fmt.Sprintf("strms=%d open=%d ring=%d held=%d", http2.VerifStrms.Load(), http2.VerifOpen.Load(), http2.VerifRing.Load(), http2.VerifHeld.Load())
 }
@@ -520,6 +536,7 @@ func (r *runner) runSrv(f []string) string {
 		if s.returned {
 			return "out gone"
 		}
+		s.noteSettings(b)
 		s.mc.in.write(b)
 		return s.quiesce()
 	case "done":
